@@ -54,6 +54,7 @@ def check_decomposition(job):
     var, rnum, it, rl = "betay", 0, 8, 0
     E = G.extended(var, rnum, it, rl, M, g)
     want = G.truth(var, rnum, it, rl, M)
+    supported = dec["family"] != "xouter"      # outside the nested z-y-x family: raise, or return exactly the interior grid
     for label, order in (("by chunk number", chunks),
                          ("by file name (decimal strings)", sorted(chunks, key=lambda c: str(c["c"])))):
         cut = {}
@@ -65,11 +66,12 @@ def check_decomposition(job):
             ok = got.shape == want.shape and np.array_equal(got, want)
             err = None
         except Exception as ex:
-            ok, err, got = False, f"{type(ex).__name__}: {ex}", None
+            ok, err, got = (not supported), f"{type(ex).__name__}: {ex}", None
         if not ok:
-            findings.append(({"clause": "JoinEqualsTruth", **sigbase},
+            findings.append(({"clause": "JoinEqualsTruth" if supported else "UnsupportedLayoutRaises", **sigbase},
                              f"join_chunks of {len(chunks)} chunks ({dec['family']} decomposition, pieces enumerated {label}, order {dec['order']}) "
-                             + (f"raised {err}" if err else f"returned shape {got.shape} / misplaced data, interior grid is {want.shape}"),
+                             + (f"raised {err}" if err else f"returned shape {got.shape} / misplaced data, interior grid is {want.shape}"
+                                + ("" if supported else " (a layout outside the supported family must raise)")),
                              {"decomposition": dec, "enumeration": label}))
             break
     # through the files
@@ -102,8 +104,10 @@ def check_decomposition(job):
                     bad = f"t column {list(d['t'])}"
         except Exception as ex:
             bad = f"raised {type(ex).__name__}: {ex}"
+        if bad and not supported and bad.startswith("raised"):
+            bad = None          # raising is the reference behaviour for a layout outside the supported family
         if bad:
-            findings.append(({"clause": "ReadEqualsTruth", "layout": "-".join(layout), **sigbase},
+            findings.append(({"clause": "ReadEqualsTruth" if supported else "UnsupportedLayoutRaises", "layout": "-".join(layout), **sigbase},
                              f"read_data on a {'-'.join(layout)} directory with {len(chunks)} chunks (ghost {g}, order {dec['order']}): {bad}",
                              {"decomposition": dec, "layout": layout}))
     finally:
